@@ -312,14 +312,28 @@ func arrayElemSort(s string) (idx, elem string) {
 	panic("bad array sort " + s)
 }
 
-func mkSelect(a, i *T) *T {
+// normIdx: ix(c1, c2) with two numerals denotes the numeral c1+c2 (used only to compare indices syntactically)
+func normIdx(t *T) *T {
+	if t.op == "ix" && len(t.args) == 2 && isNumeral(t.args[0]) && isNumeral(t.args[1]) && len(t.args[0].args) == 0 && len(t.args[1].args) == 0 {
+		var a, b int64
+		if _, err := fmt.Sscan(t.args[0].op, &a); err == nil {
+			if _, err := fmt.Sscan(t.args[1].op, &b); err == nil {
+				return atom(fmt.Sprint(a+b), "Int")
+			}
+		}
+	}
+	return t
+}
+
+func mkSelect(a, i0 *T) *T {
 	_, es := arrayElemSort(a.sort)
 	u := a.un()
+	i := normIdx(i0)
 	for u.op == "store" && len(u.args) == 3 {
-		if same(u.args[1], i) {
+		if same(normIdx(u.args[1]), i) {
 			return u.args[2]
 		}
-		if isNumeral(u.args[1]) && isNumeral(i) {
+		if isNumeral(normIdx(u.args[1])) && isNumeral(i) {
 			// distinct numerals: skip this store
 			u = u.args[0].un()
 			continue
@@ -327,9 +341,9 @@ func mkSelect(a, i *T) *T {
 		break
 	}
 	if u.op == "store" {
-		return app("select", es, u, i)
+		return app("select", es, u, i0)
 	}
-	return app("select", es, a, i)
+	return app("select", es, a, i0)
 }
 
 func mkStore(a, i, v *T) *T {
